@@ -38,6 +38,9 @@ pub enum Op {
     Fresh { r: usize, f: usize, s: usize },
     /// the same as Fresh but on a freshly spawned OS thread (joined before anything else happens)
     Hop { r: usize, f: usize, s: usize },
+    /// a call whose reader fails for good part-way (fatal fault): its own result is only compared
+    /// with equally faulted calls; what matters is that it leaves nothing behind for later calls
+    FaultCall { r: usize, f: usize, s: usize, fault: FaultPlan },
     SetLog { level: String },
     /// drop rewriter r and construct it again (same configuration, same PRNG seed)
     Renew { r: usize },
@@ -233,8 +236,24 @@ fn plan16(seed: u64, run: u64, tier: Tier) -> Plan16 {
             (Some((lr, lf, ls)), 3) => (lr, lf, ls),        // exact repeat
             _ => (r, f, s),
         };
-        let k = rng.weighted(&[12, 3, 3, 2, 2, 1]);
+        let k = rng.weighted(&[12, 3, 3, 2, 2, 1, 2]);
         let op = match k {
+            6 => {
+                let mut fp = FaultPlan::default();
+                match rng.below(4) {
+                    0 => fp.opens = vec![Some(*rng.pick(IoKind::all_open()))],
+                    1 => {
+                        // fails after some bytes were delivered
+                        fp.default_chunk = *rng.pick(&[1, 8, 40, 64]);
+                        let n = rng.range(1, 6);
+                        fp.reads = vec![ReadAct::Give(fp.default_chunk); n];
+                        fp.reads.push(ReadAct::Err(*rng.pick(&[IoKind::Other, IoKind::UnexpectedEof, IoKind::TimedOut, IoKind::InvalidData])));
+                    }
+                    2 => fp.truncate = Some(rng.range(1, 200)),
+                    _ => fp.flips = vec![(rng.below(120), rng.below(8) as u8)],
+                }
+                Op::FaultCall { r, f, s, fault: fp }
+            }
             0 => Op::Call {
                 r,
                 f,
@@ -248,7 +267,7 @@ fn plan16(seed: u64, run: u64, tier: Tier) -> Plan16 {
             4 => Op::SetLog { level: rng.pick(&["off", "error", "info", "debug", "trace"]).to_string() },
             _ => Op::Renew { r },
         };
-        if let Op::Call { r, f, s, .. } | Op::Repeat { r, f, s, .. } | Op::Fresh { r, f, s } | Op::Hop { r, f, s } = &op {
+        if let Op::Call { r, f, s, .. } | Op::Repeat { r, f, s, .. } | Op::Fresh { r, f, s } | Op::Hop { r, f, s } | Op::FaultCall { r, f, s, .. } = &op {
             last = Some((*r, *f, *s));
         }
         ops.push(op);
@@ -506,8 +525,39 @@ impl Engine for C16 {
             }
         };
 
+        let mut faulted: BTreeMap<(String, String, usize, usize, String), Outcome> = BTreeMap::new();
         for op in &plan.ops {
             match op {
+                Op::FaultCall { r, f, s, fault } => {
+                    if let Some(c) = &configs[*r] {
+                        let res = exec::call(c, &plan.sources[*s].text, &plan.files[*f], &plan.fs, fault);
+                        for (k, n) in &res.stats.faults_fired {
+                            stat(&mut rep, &format!("fault:{k}"), *n as u64);
+                        }
+                        if let Outcome::Panic { msg, loc } = &res.outcome {
+                            viol.push(Violation::new("I4", format!("I4:panic:{loc}"), format!("rewrite panicked at {loc}: {msg} (op #{seq}, faulted call)")));
+                        }
+                        let fk = (plan.rewriters[*r].cfg.to_string(), prefixes[*r].clone(), *s, *f, serde_json::to_string(fault).unwrap());
+                        match faulted.get(&fk) {
+                            None => {
+                                faulted.insert(fk, res.outcome.clone());
+                            }
+                            Some(first) => {
+                                if first != &res.outcome {
+                                    viol.push(Violation::new("I1", "I1:faulted-call", format!("the same call under the same reader fault gave a different result at op #{seq}: {}", first_diff(first, &res.outcome))));
+                                }
+                            }
+                        }
+                        let cls = res.outcome.class();
+                        log.push(format!("#{seq} FaultCall r={r} f={f} s={s} -> {cls} {:016x} fired={:?}", res.outcome.digest(), res.stats.faults_fired));
+                        if res.stats.bytes_served > 0 && res.stats.faults_fired.keys().any(|k| k.starts_with("read:") && k != "read:short") {
+                            stat(&mut rep, "probe:reader-failed-after-delivering-bytes", 1);
+                        }
+                        prev = Some((*r, *f, *s, cls));
+                        hist.push((6, *r, cls));
+                        stat(&mut rep, "op:faultcall", 1);
+                    }
+                }
                 Op::SetLog { level } => {
                     log::set_max_level(level_of(level));
                     log.push(format!("#{seq} SetLog {level}"));
@@ -725,7 +775,7 @@ impl Engine for C16 {
         // blank unused sources (keeps indices stable)
         let mut used = vec![false; p.sources.len()];
         for op in &p.ops {
-            if let Op::Call { s, .. } | Op::Repeat { s, .. } | Op::Fresh { s, .. } | Op::Hop { s, .. } = op {
+            if let Op::Call { s, .. } | Op::Repeat { s, .. } | Op::Fresh { s, .. } | Op::Hop { s, .. } | Op::FaultCall { s, .. } = op {
                 used[*s] = true;
             }
         }
@@ -756,7 +806,7 @@ impl Engine for C16 {
     }
 
     fn rule(&self) -> String {
-        "a case is one seeded call history (10-60 operations: Call/Repeat/Fresh/Hop/SetLog/Renew over <=4 rewriters, <=6 files, <=8 generated sources, benign reader faults); distinct = hash of the abstract history (operation kind, rewriter index, outcome class per step); non-trivial = at least two operations; cells = outcome-class transitions x same/other rewriter x same/other file".into()
+        "a case is one seeded call history (10-60 operations: Call/Repeat/Fresh/Hop/FaultCall/SetLog/Renew over <=4 rewriters, <=6 files, <=8 generated sources, benign reader faults); distinct = hash of the abstract history (operation kind, rewriter index, outcome class per step); non-trivial = at least two operations; cells = outcome-class transitions x same/other rewriter x same/other file".into()
     }
 
     fn components(&self) -> Value {
@@ -782,6 +832,7 @@ impl Engine for C16 {
             "probe:same-content-different-file",
             "probe:two-rewriters-alternate-on-one-file",
             "probe:thread-hop-with-random-prefix",
+            "probe:reader-failed-after-delivering-bytes",
         ]
     }
 }
